@@ -1,6 +1,7 @@
 SPECIFICATION Spec
 CONSTANTS Routers <- AllRouters
           Actors <- AllActors6
+          ExtraActors = {"op1", "op4"}
           CtxDepth = 3
           EmitOn = TRUE
 INVARIANT PropC18
